@@ -7,3 +7,4 @@ pub mod eq;
 pub mod ai;
 pub mod list;
 pub mod resolve;
+pub mod scale;
